@@ -34,6 +34,8 @@ func C19(r *core.Report) {
 	rangeSelectionInclusive(r, "C19.R8")
 	r.Floor("C19.R8", 1)
 	c19VoteProgramsComplete(r)
+	slotWalkStopsOnlyBelowRange(r, "C19.R10")
+	r.Floor("C19.R10", 1)
 	r.Floor("C19.R9", 1)
 	r.Floor("C19.R1", 6)
 	r.Floor("C19.R2", 2)
